@@ -222,6 +222,7 @@ def tlc(module, cfg, workers=None, env=None, simulate=None, depth=None, extra=()
         javaopts.append("-Xmx" + heap)
     if dfs:
         javaopts.append("-Dtlc2.tool.queue.IStateQueue=StateDeque")
+    javaopts.append("-Djava.io.tmpdir=" + meta)      # SANY's temporary directories go with the metadir
     cmd = ["java"] + javaopts + ["-cp", _JAR, "tlc2.TLC", "-noGenerateSpecTE",
            "-metadir", meta, "-workers", str(workers or NCPU),
            "-config", cfg if os.path.isabs(cfg) else os.path.join(SPEC, cfg)]
